@@ -300,3 +300,13 @@ for _p in ("C10", "C11"):
 G_SIDE = {"profile": "greedy", "opts": {"p_batch_loader": 0, "p_conditionals": 1.0, "p_side_input": 0.6}}
 CH_SIDE = {"profile": "chaos", "opts": {"p_batch_loader": 0, "p_conditionals": 1.0, "p_side_input": 0.6}}
 PROPS["C02"]["streams"] = [G, CH, G_COND, CH_COND, PLAN, G_SIDE, CH_SIDE]
+
+# ------------------------------------------------------------------ C13: preemptive EDF / LSF (shadow probes)
+G_PRE = {"profile": "greedy", "opts": {"p_batch_loader": 0, "single_worker_pools": True, "p_preempt_probe": 1.0}}
+PROPS["C13"]["streams"] = [G_SINGLE, G_SINGLE, G_PRE]
+PROPS["C13"]["nontrivial"] = lambda r: (r["probes"].get("c13_unplaced_task_checked", 0) +
+                                        r["probes"].get("c13_preemptive_unplaced_task_checked", 0)) > 0
+PROPS["C13"]["stub"] = PROPS["C13"].get("stub", []) + [
+    "the preemptive mode of EDF/LSF is only shadow-probed (invoked on the live state of greedy-driven runs, where "
+    "partially executed RUNNING tasks are offered again; answer checked and discarded)"]
+PROPS["C18"]["streams"] = [G, CH, G_COND, CH_COND, PLAN, G_PRE]
